@@ -45,6 +45,26 @@ def check_text(case, stats, pid):
     pc.compare(case, res[2], ref, PROJ[pid], "pickles of a parsed document\n" + r.text)
 
 
+def check_rawtext(case, stats):
+    """any text (here: the magnitude families): pickles of the parsed document vs reference parser + reference compiler"""
+    from vlib.refparse import ref_parse
+    pid = case["pid"]
+    text = case["text"]
+    if gh.names_existing_path(text):
+        return
+    ref = ref_parse(text)
+    if not ref.accepted:
+        stats.label("rejected-skipped")
+        return
+    ast = dict(ref.ast, uri=URI)
+    want = ref_compile(ast, pc.max_id(ast) + 1)
+    stats.case(text, len(want) >= 10, sample={"label": case.get("label"), "pickles": len(want)}, labels=["pickles>=10" if len(want) >= 10 else "pickles<10"])
+    res = gh.parse_and_compile(text, uri=URI)
+    if res[0] != "ok":
+        raise Violation(case, "document accepted by the reference parser is rejected: %r" % (res[1][:2],))
+    pc.compare(case, res[2], want, PROJ[pid], "pickles of %s" % case.get("label", "a parsed document"))
+
+
 def unit_text(a):
     stats = Stats()
     pid = a["pid"]
@@ -55,4 +75,6 @@ def unit_text(a):
 
 def run_text(ctx, pid):
     q = ctx.quick
+    from . import magnitude
+    magnitude.run_big(ctx, "textdocs_impl", "check_rawtext", "rawtext", extra={"pid": pid})
     ctx.units("parsed-model-documents", unit_text, [{"pid": pid, "n": 600 if q else 5000, "seed": ctx.seed, "shard": i} for i in range(8 if q else 16)], procs=16)
